@@ -27,7 +27,7 @@ ASSUMPTIONS = ["OPEN FINDING c18-file-newlines: keysym 0x0D (written as a raw CR
                "main stream and re-confirmed by a dedicated case",
                "pointer positions are compared up to stuttering (a recorded click replays as press + release at the same position)",
                "a recorded pause is the number written in the script; the replayed pause must be >= that number / warp"]
-EXTRA_VO = ["Proofs/CommandTie.vo", "Proofs/RecorderDispatchTie.vo"]
+EXTRA_VO = ["Proofs/CommandTieRecorder.vo", "Proofs/RecorderDispatchTie.vo"]
 
 REV = dict(lp.REVERSE_MAP)
 
